@@ -58,6 +58,11 @@ def g_char(rng):
     return rng.choice(ESCAPES) if rng.random() < 0.2 else rng.choice(PRINTABLE)
 
 
+def g_cval(rng):
+    """value of a 'c' argument: as g_char, plus NUL"""
+    return 0 if rng.random() < 0.03 else g_char(rng)
+
+
 def g_f(rng):
     r = rng.random()
     if r < 0.15:
@@ -83,8 +88,18 @@ def g_d(rng):
     return (rng.randint(0, 1) << 63) | (e << 52) | rng.getrandbits(52)
 
 
+TRICKY = [b"...", b" ... 5 ", b"... 6 ", b"%", b"% x", b"\"", b"\\", b"[", b"]", b"(", b")", b" (0x1p-1)", b"3x", b"x",
+          b"1970-01-01", b"-", b" -1", b"S", b"\"S", b"'", b"\n", b"  ", b"#", b"/", b"\\\n    \"", b"(...+0x1p-1s)",
+          b"true", b"nil", b"0x", b"BLOB [", b"MIDI ["]
+
+
 def g_bytes(rng, lo, hi):
     n = rng.randint(lo, hi)
+    if rng.random() < 0.15:       # fragments of the pretty format's own syntax inside the string
+        out = b""
+        for _ in range(rng.randint(1, 4)):
+            out += rng.choice(TRICKY) if rng.random() < 0.6 else bytes(g_char(rng) for _ in range(rng.randint(0, 4)))
+        return out
     return bytes(g_char(rng) for _ in range(n))
 
 
@@ -132,7 +147,7 @@ def g_val(rng, ty, lossless):
     if ty == "h":
         return "h%d" % g_h(rng)
     if ty == "c":
-        return "c%d" % g_char(rng)
+        return "c%d" % g_cval(rng)
     if ty == "f":
         return "f%08x" % g_f(rng)
     if ty == "d":
@@ -182,9 +197,23 @@ def g_run(rng, lossless, maxlen=9):
         delta = rng.choice([1, -1, 1, -1, 2, -2, 3, 10, -10, 100, 1000, -7, 2 ** 30, -2 ** 30, rng.randint(-10 ** 6, 10 ** 6) or 1])
         start = g_i(rng) if ty == "i" else g_h(rng)
         return ["%s%d" % (ty, wrap(ty, start + k * delta)) for k in range(n)]
+    if lossless and rng.random() < 0.08:      # zeros of both signs compare equal but print differently
+        ty = rng.choice("fd")
+        z = ["f00000000", "f80000000"] if ty == "f" else ["d0000000000000000", "d8000000000000000"]
+        return [rng.choice(z) if rng.random() < 0.3 else z[0] for _ in range(n)]
     ty = rng.choice(types_for(lossless))
     v = g_val(rng, ty, lossless)
     return [v] * n
+
+
+def g_array_run(rng, lossless):
+    """constant run of one small array (printed `nx[...]` when compressed), now and then one differing"""
+    arr = g_array(rng, lossless, 3)
+    n = rng.randint(1, 7)
+    out = []
+    for k in range(n):
+        out.append(g_array(rng, lossless, 3) if rng.random() < 0.05 else arr)
+    return out
 
 
 def g_array(rng, lossless, maxlen=8):
@@ -202,6 +231,9 @@ def g_array(rng, lossless, maxlen=8):
             els = [rng.choice("TF") for _ in range(n)]
         else:
             els = [g_val(rng, ty, lossless) for _ in range(n)]
+    if rng.random() < 0.04 and maxlen >= 2:   # arrays inside arrays
+        subs = [g_array(rng, lossless, 3) for _ in range(rng.randint(1, 3))]
+        return ["[%d" % ord("a")] + [t for sub in subs for t in sub] + ["]"]
     return ["[%d" % ord(els[0][0])] + els + ["]"]
 
 
@@ -238,6 +270,11 @@ def g_args(rng, lossless, stats):
                 ntop += len(run)
                 stats["runs"] += 1
                 stats["run_len_hist"][str(len(run))] = stats["run_len_hist"].get(str(len(run)), 0) + 1
+            elif r < 0.5:
+                for arr in g_array_run(rng, lossless):
+                    out += arr
+                    ntop += 1
+                stats["array_runs"] += 1
             elif r < 0.75:
                 arr = g_array(rng, lossless)
                 out += arr
@@ -253,7 +290,9 @@ def g_args(rng, lossless, stats):
 
 def generate(rng, tier, stats):
     n = 6000 if tier == "quick" else 200000
-    stats.update({"shape_single_type": 0, "shape_mixed": 0, "shape_pieces": 0, "runs": 0, "arrays": 0,
+    for op in libc_stream(rng, 1500 if tier == "quick" else 60000, stats):
+        yield op
+    stats.update({"shape_single_type": 0, "shape_mixed": 0, "shape_pieces": 0, "runs": 0, "arrays": 0, "array_runs": 0,
                   "run_len_hist": {}, "array_len_hist": {}, "messages": 0, "lossless": 0, "compress": 0,
                   "type_hist": {}, "linelength_hist": {}, "precision_hist": {}})
     for _ in range(n):
@@ -274,6 +313,78 @@ def generate(rng, tier, stats):
         if msg:
             addr = hx(b"/" + bytes(rng.choice(b"abcxyz/_09#") for _ in range(rng.randint(0, 12))))
         yield " ".join(["M" if msg else "A", str(lossless), str(prec), str(ll), str(comp), "0", addr] + args)
+
+
+def g_float_text(rng):
+    """spellings of floating-point numbers for the sscanf %f / %lf sub-model"""
+    r = rng.random()
+    if r < 0.15:
+        return rng.choice(["0", "0.0", "-0.0", "1", "1.", ".5", "-.5e-3", "5e", "5e+", "5e-", "1e5", "1E5", "1e+05", "0x", "0x.", "0x1",
+                           "0x1p", "0x1p-", "0x1p-1", "0X1.8P+1", "0x.8p1", "0x1.p1", "inf", "-inf", "infinity", "infinit", "nan", "-nan", "NaN",
+                           "1e400", "1e-400", "-1e400", "4.9e-324", "2.4e-324", "2.5e-324", "1.7976931348623157e308", "1.7976931348623159e308",
+                           "3.4028235e38", "3.4028236e38", "1.4e-45", "0.7e-45", "16777217", "16777219", "9007199254740993",
+                           "0.1", "0.1f", "1.5d", " 2.5", "+3", "..5", "-", "+", ".", "e5", "0x1.fffffffffffff8p0", "0x1.ffffffp0", "0x1.000001p0",
+                           "0x1.0000010000000000000000001p0", "0.50 (0x1p-1)", "1x", "1..2", "1.2.3", "00012.5000", "0x00001.8p1"])
+    if r < 0.45:
+        d = "".join(rng.choice("0123456789") for _ in range(rng.randint(1, rng.choice([3, 10, 25]))))
+        f = "".join(rng.choice("0123456789") for _ in range(rng.randint(0, rng.choice([3, 10, 40]))))
+        t = ("-" if rng.random() < 0.3 else "") + d + ("." + f if rng.random() < 0.8 else "")
+        if rng.random() < 0.3:
+            t += rng.choice("eE") + rng.choice(["", "+", "-"]) + str(rng.randint(0, rng.choice([5, 40, 330])))
+        return t
+    if r < 0.7:      # exactly representable values and their neighbours in decimal
+        if rng.random() < 0.5:
+            x = struct.unpack("<f", struct.pack("<I", g_f(rng)))[0]
+        else:
+            x = struct.unpack("<d", struct.pack("<Q", g_d(rng)))[0]
+        return repr(x) if rng.random() < 0.5 else "%.*f" % (rng.randint(0, 12), x)
+    # hexadecimal
+    m = "".join(rng.choice("0123456789abcdefABCDEF") for _ in range(rng.randint(1, rng.choice([2, 8, 20]))))
+    f = "".join(rng.choice("0123456789abcdef") for _ in range(rng.randint(0, rng.choice([2, 8, 20]))))
+    t = ("-" if rng.random() < 0.3 else "") + "0x" + m + ("." + f if rng.random() < 0.7 else "")
+    if rng.random() < 0.8:
+        t += "p" + rng.choice(["", "+", "-"]) + str(rng.randint(0, rng.choice([5, 40, 160, 1100])))
+    return t
+
+
+def g_int_text(rng):
+    r = rng.random()
+    if r < 0.3:
+        return rng.choice(["0", "-0", "+5", " 12", "0x1f", "0X1F", "077", "08", "0x", "0xg", "-", "+", "", " ", "12abc", "-0x10", "0x-1",
+                           "99999999999999999999", "-99999999999999999999", "9223372036854775807", "9223372036854775808",
+                           "-9223372036854775808", "18446744073709551615", "18446744073709551616", "ffffffffffffffffff",
+                           "2147483647", "2147483648", "-2147483649", "1234-56-78", "00", "0 1", "1x", "a", "-a", "0b1"])
+    base = rng.choice([8, 10, 16])
+    digs = "01234567" if base == 8 else ("0123456789" if base == 10 else "0123456789abcdefABCDEF")
+    t = "".join(rng.choice(digs) for _ in range(rng.randint(1, rng.choice([2, 6, 12, 22]))))
+    if base == 16 and rng.random() < 0.7:
+        t = "0x" + t
+    if base == 8:
+        t = "0" + t
+    return ("-" if rng.random() < 0.3 else "") + t + rng.choice(["", "", " ", "h", "x", "-1", ".5"])
+
+
+def libc_stream(rng, n, stats):
+    """inputs for the libc sub-models alone (printf %a, %#.Nf, sscanf %f %lf %d %i %x, localtime/mktime)"""
+    for _ in range(n):
+        k = rng.randint(0, 8)
+        stats["libc_ops"] = stats.get("libc_ops", 0) + 1
+        if k == 0:
+            yield "X a32 %08x" % (g_f(rng) if rng.random() < 0.95 else rng.choice([0x7f800000, 0xff800000, 0x7fc00000]))
+        elif k == 1:
+            yield "X a64 %016x" % (g_d(rng) if rng.random() < 0.95 else rng.choice([0x7ff0000000000000, 0xfff0000000000000, 0x7ff8000000000000]))
+        elif k == 2:
+            yield "X f32 %d %08x" % (rng.randint(0, 9), g_f(rng))
+        elif k == 3:
+            yield "X f64 %d %016x" % (rng.randint(0, 9), g_d(rng))
+        elif k == 4:
+            yield "X sf32 " + hx(g_float_text(rng).encode())
+        elif k == 5:
+            yield "X sf64 " + hx(g_float_text(rng).encode())
+        elif k in (6, 7):
+            yield "X si %s %s %s" % (rng.choice("dix"), rng.choice(["-", "-", "1", "2", "4", "8"]), hx(g_int_text(rng).encode()))
+        else:
+            yield "X tm %d" % (rng.getrandbits(32) if rng.random() < 0.8 else rng.choice([0, 86399, 86400, 951782399, 951782400, 951868800, 4107542399, 2 ** 32 - 1]))
 
 
 def nontrivial(op):
